@@ -156,15 +156,16 @@ var stmtFaults = []string{"unknown-node-by-name", "unknown-node-by-expression", 
 
 func (c06) Thresholds(tier string) map[string]int64 {
 	th := map[string]int64{
-		"faults-reached":            2500,
-		"faults-not-reached":        100,
-		"post-error-next-calls":     60000,
-		"long-non-yielding-run":     1,
-		"recording-store":           1000,
-		"default-store":             1000,
-		"post-error:line":           500,
-		"post-error:end":            500,
-		"post-error:error":          5,
+		"faults-reached":                     2500,
+		"faults-not-reached":                 100,
+		"post-error-next-calls":              60000,
+		"long-non-yielding-run":              1,
+		"recording-store":                    1000,
+		"default-store":                      1000,
+		"post-error:line":                    500,
+		"post-error:end":                     500,
+		"post-error:error":                   5,
+		"restored-from-own-initial-snapshot": 800,
 	}
 	for _, f := range exprFaults {
 		th["reached:"+f.name] = 40
@@ -345,6 +346,18 @@ func (p c06) Run(c *core.Ctx) {
 	if err != nil || pan != "" {
 		c.Violate("a generated, syntactically valid program (with one planted script-level fault) failed to load", map[string]any{"readers": scripts, "fault": class, "position": pos, "error": fmt.Sprint(err), "panic": pan})
 		return
+	}
+	// host configuration: one runner in three is first restored from its own initial snapshot
+	// (which must not change anything)
+	if r.Chance(1, 3) {
+		snap := pair.R.DR.Snapshot()
+		if err := pair.R.DR.RestoreAt(snap); err != nil {
+			c.Violate("restoring a runner from its own initial snapshot failed: "+err.Error(), map[string]any{"readers": scripts})
+			return
+		}
+		pair.M.Restore(pair.M.Check.Clone())
+		pair.Trace = append(pair.Trace, "RestoreAt(Snapshot()) before the first step")
+		c.Feature("restored-from-own-initial-snapshot")
 	}
 	var choices []int
 	reached := false
